@@ -31,7 +31,7 @@ def run(a):
             c.cov["input_distribution"] = st
             m = c.run_model(exe, ops)
             if m:
-                c.diff(ops, impl, m, stateful=True, hbin=hbin, exe=exe)
+                c.diff(ops, impl, m, stateful=True, hbin=hbin, exe=exe, prefer_property=True, fail_first=True)
                 c.cov["programs"] = sum(1 for l in open(ops) if l.startswith("# case"))
     c.prove("ClientGoVerif.Props.C12")
     return c.finish()
@@ -57,5 +57,5 @@ def replay(a):
         m = c.run_model(exe, ops, tag=f"rp{n}")
         for o, i, mm in zip(open(ops).read().splitlines(), open(impl).read().splitlines(), open(m).read().splitlines()):
             print(f"{o}\n   impl : {i}\n   model: {mm}")
-        c.diff(ops, impl, m, stateful=True, hbin=hbin, exe=exe)
+        c.diff(ops, impl, m, stateful=True, hbin=hbin, exe=exe, prefer_property=True, fail_first=True)
     return c.finish()
